@@ -276,6 +276,7 @@ func c12(p *model.Prog, r *report.Result) {
 	r.Check(okSingle, "C12.R3", fkey(fn, "single", "copy-whole"), p.Pos(fn.Pos()), "single-NAL packet = copy(nal)", "a unit that fits the payload limit is no longer sent as an unmodified single NAL packet")
 	c12r45(p, r)
 	c12r6(p, r)
+	c12r8As(p, r, "C12.R8")
 	c07r7As(p, r, "C12.R7")
 }
 
